@@ -96,23 +96,60 @@ class CoqLock:
         self.f.close()
 
 
-def coq_make():
+def coq_project():
+    """_CoqProject lists every .v under lib/ model/ gen/ proof/ props/ (regenerated when the set changes)"""
+    files = []
+    for d in ("lib", "model", "gen", "proof", "props"):
+        dd = os.path.join(COQ, d)
+        if os.path.isdir(dd):
+            files += sorted(os.path.join(d, f) for f in os.listdir(dd) if f.endswith(".v") and not f.startswith("."))
+    txt = "-Q lib Verif\n-Q model VerifModel\n-Q gen VerifGen\n-Q proof VerifProof\n-Q props VerifProps\n" + "\n".join(files) + "\n"
+    p = os.path.join(COQ, "_CoqProject")
+    changed = not os.path.exists(p) or open(p).read() != txt
+    if changed:
+        open(p, "w").write(txt)
+    return changed
+
+
+def coq_make(targets=None):
     with CoqLock():
-        if not os.path.exists(os.path.join(COQ, "Makefile")):
+        changed = coq_project()
+        if changed or not os.path.exists(os.path.join(COQ, "Makefile")):
             rc, out, _ = sh(["coq_makefile", "-f", "_CoqProject", "-o", "Makefile"], cwd=COQ, timeout=120)
             if rc != 0:
                 return rc, out
-        rc, out, dt = sh(["make", "-j16"], cwd=COQ, timeout=3000)
+        rc, out, dt = sh(["make", "-j16"] + (targets or []), cwd=COQ, timeout=3000)
         return rc, out
 
 
-def scan_forbidden():
+def coq_deps(prop):
+    """files of the development that props/<prop>.v transitively requires"""
+    dirs = {"Verif": "lib", "VerifModel": "model", "VerifGen": "gen", "VerifProof": "proof", "VerifProps": "props"}
+    seen, todo = set(), [os.path.join("props", prop + ".v")]
+    while todo:
+        f = todo.pop()
+        if f in seen or not os.path.exists(os.path.join(COQ, f)):
+            continue
+        seen.add(f)
+        txt = strip_comments(open(os.path.join(COQ, f), errors="replace").read())
+        for m in re.finditer(r"From\s+(\w+)\s+Require\s+(?:Import\s+|Export\s+)?([^.]*(?:\.[A-Za-z_][^.]*)*?)\.\s", txt):
+            lib, names = m.group(1), m.group(2)
+            if lib in dirs:
+                for n in names.split():
+                    todo.append(os.path.join(dirs[lib], n.split(".")[-1] + ".v"))
+        for m in re.finditer(r"(?<!From )\bRequire\s+(?:Import\s+|Export\s+)?((?:Verif\w*\.\w+\s*)+)\.", txt):
+            for n in m.group(1).split():
+                lib, name = n.split(".")[0], n.split(".")[-1]
+                if lib in dirs:
+                    todo.append(os.path.join(dirs[lib], name + ".v"))
+    return sorted(seen)
+
+
+def scan_forbidden(files):
     bad = []
-    for root, _, files in os.walk(COQ):
+    if True:
         for f in files:
-            if not f.endswith(".v"):
-                continue
-            p = os.path.join(root, f)
+            p = os.path.join(COQ, f)
             txt = open(p, errors="replace").read()
             txt_nc = strip_comments(txt)
             for m in FORBIDDEN.finditer(txt_nc):
@@ -297,7 +334,7 @@ def main(argv):
     info = {}
 
     # 0. hygiene of the Coq development
-    bad = scan_forbidden()
+    bad = scan_forbidden(coq_deps(prop))
     if bad:
         broken.append(dict(kind="hygiene", what="forbidden construct in the Coq development: " + "; ".join(bad[:10])))
 
@@ -334,7 +371,7 @@ def main(argv):
                     if not os.path.exists(dst) or open(dst).read() != new:
                         open(dst, "w").write(new)
                         info.setdefault("gen_changed", []).append(g)
-    mrc, mout = coq_make()
+    mrc, mout = coq_make(["props/%s.vo" % prop])
     if mrc != 0:
         broken.append(dict(kind="coq-make", what="the Coq development no longer builds (make)", log=mout[-3000:]))
     pr = check_props(prop, meta, build)
@@ -470,7 +507,8 @@ def main(argv):
         property_id=prop, tier=tier, seed=seed, level="proof",
         coverage=dict(
             obligations=pr["obligations"], discharged=pr["discharged"],
-            checker_cmd="cd coq && make -j16 && " + pr["cmd"],
+            checker_cmd="cd coq && make -j16 props/%s.vo && %s" % (prop, pr["cmd"]),
+            coq_files_checked=coq_deps(prop),
             theorems=pr["theorems"], axioms_printed=pr["axioms"],
             trusted_base=["Coq 8.16.1 kernel + vm_compute (no native_compute)",
                           "hand-written Gallina model tied to the Go code by the correspondence run below",
